@@ -7,7 +7,7 @@
    [read_row fixed es row] the trace read path (OutputQuery) on a stored row.
    Accepted spans have 16-byte trace ids and 8-byte span ids (onSpan rejects every other width): part of [row_of]. *)
 From Coq Require Import List ZArith NArith Bool String Ascii Permutation.
-From Qryn Require Import model.Spans model.SpansChunk model.SpansWire model.SpansStore model.SpansJson model.SpansWireX model.SpansWireY model.SpansZone proofs.SpansZoneProofs proofs.SpansWireXProofs proofs.SpansWireYProofs proofs.SpansProofs proofs.SpansChunkProofs
+From Qryn Require Import model.Spans model.SpansChunk model.SpansWire model.SpansStore model.SpansJson model.SpansWireX model.SpansWireY model.SpansZone model.SpansSvc proofs.SpansSvcProofs proofs.SpansZoneProofs proofs.SpansWireXProofs proofs.SpansWireYProofs proofs.SpansProofs proofs.SpansChunkProofs
   proofs.SpansTimeProofs proofs.SpansWireProofs proofs.SpansStoreProofs proofs.SpansJsonProofs proofs.SpansNumProofs.
 Import ListNotations.
 Open Scope Z_scope.
@@ -387,3 +387,41 @@ Print Assumptions tag_date_inside_search_window.
 Theorem pushed_times_are_int64 : forall inp ps, pushed_of inp = Some ps -> Forall (fun p => in_int64 (p_ts p) = true) ps.
 Proof. exact pushed_ts_int64. Qed.
 Print Assumptions pushed_times_are_int64.
+
+(* ---- round 8: ONE service name on both sides of the store (model/SpansSvc.v).
+   For every accepted request and every span inside [svc_guard] (Zipkin: every span; OTLP: the service.name attribute the span is stored
+   with -- last occurrence among the span's attributes followed by the resource's, or the synthesised one -- is a non-empty string and no
+   attribute is named "service"): the read path returns a span for the stored row, the service name it reports (the name the answer groups the
+   span under) IS the service_name column of the trace row and the pushed span's service name, and the tag index holds the row
+   (service.name, that name) for the span. *)
+Theorem read_service_is_row_service : forall inp rows ps,
+  decode fixed inp = Some rows -> pushed_of inp = Some ps ->
+  Forall2 (fun p sr => svc_guard p = true ->
+                       exists r, read_row fixed (in_elems inp) (fst sr) = Some r /\ rs_service r = t_service (fst sr) /\
+                                 t_service (fst sr) = p_service p /\ In (k_service, p_service p) (map kv_of (snd sr))) ps rows.
+Proof. exact read_service_is_row_service_l. Qed.
+Print Assumptions read_service_is_row_service.
+
+(* OTLP, inside the domain: the first-level service.name attribute the read path returns (read_back: rs_attrs = p_attrs) is that same name. *)
+Theorem otlp_service_attribute : forall b rows ps,
+  decode fixed (InOtlp b) = Some rows -> pushed_of (InOtlp b) = Some ps ->
+  Forall (fun p => svc_guard p = true -> lookup k_service (p_attrs p) = Some (AStr (p_service p))) ps.
+Proof. exact otlp_service_attribute_l. Qed.
+Print Assumptions otlp_service_attribute.
+
+(* The oracle the check evaluates on the implementation's observations ([svc_ok]) accepts the model's own output for EVERY request. *)
+Theorem model_meets_service_spec : forall inp, svc_ok (model_case fixed inp) = true.
+Proof. exact model_meets_service_spec_l. Qed.
+Print Assumptions model_meets_service_spec.
+
+(* The domain is needed: (trace row service_name, name the read path reports) for service.name = 5, for service.name = "" beside
+   peer.service = db, and for a resource attribute service = {name: inner} beside the span's service.name = outer; all three outside the guard. *)
+Theorem service_names_differ_outside :
+  names_of (svc_req [] [("service.name", AInt 5)]) = [("5", no_service)]
+  /\ names_of (svc_req [("service.name", AStr "")] [("peer.service", AStr "db")]) = [("", "db")]
+  /\ names_of (svc_req [("service", AMap [("name", AStr "inner")])] [("service.name", AStr "outer")]) = [("inner", "outer")]
+  /\ guards_of (svc_req [] [("service.name", AInt 5)]) = [false]
+  /\ guards_of (svc_req [("service.name", AStr "")] [("peer.service", AStr "db")]) = [false]
+  /\ guards_of (svc_req [("service", AMap [("name", AStr "inner")])] [("service.name", AStr "outer")]) = [false].
+Proof. exact SpansSvcProofs.service_names_differ_outside. Qed.
+Print Assumptions service_names_differ_outside.
